@@ -77,6 +77,8 @@ def cases(draw):
         additional[an] = dict((n, 50. + 3. * i + (0.5 if an == 'age' else 0.)) for i, n in enumerate(names))
     form_in = draw(st.sampled_from(['file', 'list', 'object'] if nsrc == 1 else ['file', 'list']))
     return {'names': names, 'params': params, 'columns': list(colnames), 'perm': list(perm), 'nfilt': nfilt,
+            'perm2': list(draw(st.permutations(list(range(nmod))))) if draw(st.booleans()) else None,
+            'col_format': draw(st.sampled_from(['D', 'D', 'E'])),
             'records': recs, 'selector': sel, 'additional': additional, 'input': form_in,
             'name_width': draw(st.sampled_from([30, 30, 12]))}
 
@@ -127,10 +129,20 @@ def run_case(case, ctx):
     if permuted:
         labels.add('permuted')
     with ctx.tempdir() as d:
-        mdir = os.path.join(d, 'models')
-        os.mkdir(mdir)
-        pkgio.write_parameters(mdir, names, dict((c, case['params'][c]) for c in case['columns']), order=case['perm'],
-                               width=case['name_width'])
+      mdir = os.path.join(d, 'models')
+      os.mkdir(mdir)
+      passes = [case['perm']] + ([case['perm2']] if case.get('perm2') else [])
+      for ipass, perm_now in enumerate(passes):
+        # second pass: the SAME model directory, parameters.fits rewritten with its rows in another order (listings are
+        # looked up by model name, so nothing may remember the previous order)
+        pkgio.write_parameters(mdir, names, dict((c, case['params'][c]) for c in case['columns']), order=perm_now,
+                               width=case['name_width'], fmt=case.get('col_format', 'D'))
+        if ipass:
+            labels.add('table_rewritten_in_same_directory')
+            d2 = os.path.join(d, 'pass2')
+            os.mkdir(d2)
+        else:
+            d2 = d
         meta = fg.Meta(mdir, [1. + j for j in range(case['nfilt'])], [3.] * case['nfilt'],
                        {'wav': [0.1, 0.55, 10.], 'chi': [3., 1., 0.1]})
         infos = [fg.build_info(r, names, meta) for r in case['records']]
@@ -306,7 +318,7 @@ def run_case(case, ctx):
                 for rank, k in enumerate(e['kept']):
                     want = par_value(c2, k[0])
                     got = float(ts[c2][rank])
-                    if not close(got, want, rel=1e-12):
+                    if not close(got, want, rel=1e-12 if case.get('col_format', 'D') == 'D' or c2 in add else 2e-7):
                         fail('filter_table: row %d (%s) has %s = %r, expected %r' % (rank, k[0], c2, got, want),
                              'c09:ft_wrong_parameters')
     return labels, nontrivial
